@@ -804,4 +804,657 @@ Proof.
     + intros r Hr. left. exists i. reflexivity.
 Qed.
 
+(* ------------------------------------------------------------------ sequences of micro steps *)
+Lemma run_micro_cons c k ks (st : state) :
+  run_micro mk c (k :: ks) st =
+  let '(st1, W1, r1) := exec_micro mk c k st in
+  let '(st2, W2, r2) := run_micro mk c ks st1 in (st2, W1 ++ W2, r1 ++ r2).
+Proof. reflexivity. Qed.
+
+Definition no_alias (k : micro) : Prop := forall i, k <> KAlias i.
+
+Lemma run_micro_frame c ks : forall (st st' : state) W res,
+  wf_state st -> run_micro mk c ks st = (st', W, res) ->
+  hext (hnext (hp st)) W (hp st) (hp st') /\ wf_state st' /\ length (objs st) <= length (objs st') /\
+  Forall (fun l => hnext (hp st) <= l \/ c_inplace_project c = true) W /\
+  (Forall no_alias ks -> forall r, In r res -> length (objs st) <= r < length (objs st')).
+Proof.
+  induction ks as [|k r IH]; intros st st' W res WS E.
+  - cbn in E. inversion E; subst. split; [apply hext_refl|split; [exact WS|split; [lia|split; [constructor|]]]].
+    intros _ x [].
+  - rewrite run_micro_cons in E.
+    destruct (exec_micro mk c k st) as [[st1 W1] r1] eqn:E1.
+    destruct (run_micro mk c r st1) as [[st2 W2] r2] eqn:E2. inversion E; subst; clear E.
+    destruct (micro_ok _ _ _ _ _ _ WS E1) as (A1 & B1 & C1 & _ & _ & F1 & _ & R1).
+    destruct (IH _ _ _ _ B1 E2) as (A2 & B2 & C2 & F2 & R2).
+    assert (L : hnext (hp st) <= hnext (hp st1)) by (destruct A1; auto).
+    split; [|split; [exact B2|split; [lia|split]]].
+    + eapply hext_trans; [exact A1|]. eapply hext_base_mono; [exact L|exact A2].
+    + apply Forall_app; split.
+      * eapply Forall_impl; [|exact F1]. cbn. intros l [X|[X _]]; auto.
+      * eapply Forall_impl; [|exact F2]. cbn. intros l [X|X]; [left; lia|auto].
+    + intros NA x Hx. inversion NA as [|? ? NK NR]; subst. apply in_app_or in Hx. destruct Hx as [Hx|Hx].
+      * destruct (R1 _ Hx) as [[i Hi]|Hr]; [exfalso; exact (NK i Hi)|lia].
+      * specialize (R2 NR _ Hx). lia.
+Qed.
+
+Lemma run_micro_inv c (Q : micro -> Prop) (P : state -> Prop) :
+  (forall k st st' W res, Q k -> P st -> wf_state st -> exec_micro mk c k st = (st', W, res) -> P st') ->
+  forall ks st st' W res, Forall Q ks -> P st -> wf_state st -> run_micro mk c ks st = (st', W, res) -> P st'.
+Proof.
+  intros STEP. induction ks as [|k r IH]; intros st st' W res FQ HP WS E.
+  - cbn in E. inversion E; subst. exact HP.
+  - rewrite run_micro_cons in E.
+    destruct (exec_micro mk c k st) as [[st1 W1] r1] eqn:E1.
+    destruct (run_micro mk c r st1) as [[st2 W2] r2] eqn:E2. inversion E; subst; clear E.
+    inversion FQ as [|? ? QK QR]; subst.
+    destruct (micro_ok _ _ _ _ _ _ WS E1) as (_ & B1 & _).
+    apply (IH st1 st' W2 r2 QR); [eapply STEP; eassumption|exact B1|exact E2].
+Qed.
+
+Lemma exec_frame c x (st st' : state) W res :
+  wf_state st -> exec mk c x st = (st', W, res) ->
+  hext (hnext (hp st)) W (hp st) (hp st') /\ wf_state st' /\ length (objs st) <= length (objs st').
+Proof.
+  intros WS E. unfold exec in E. destruct (run_micro_frame _ _ _ _ _ _ WS E) as (A & B & C & _). auto.
+Qed.
+
+Lemma run_cons c x hist (st : state) :
+  run mk c (x :: hist) st = let '(st1, _, _) := exec mk c x st in run mk c hist st1.
+Proof. reflexivity. Qed.
+
+Lemma run_inv c (Q : cmd -> Prop) (P : state -> Prop) :
+  (forall x st st' W res, Q x -> P st -> wf_state st -> exec mk c x st = (st', W, res) -> P st') ->
+  forall hist st, Forall Q hist -> P st -> wf_state st -> P (run mk c hist st) /\ wf_state (run mk c hist st).
+Proof.
+  intros STEP. induction hist as [|x r IH]; intros st FQ HP WS.
+  - cbn. auto.
+  - rewrite run_cons. destruct (exec mk c x st) as [[st1 W1] r1] eqn:E1. inversion FQ as [|? ? QK QR]; subst.
+    destruct (exec_frame _ _ _ _ _ _ WS E1) as (_ & B & _).
+    apply (IH st1 QR); [eapply STEP; eassumption|exact B].
+Qed.
+
+Lemma empty_wf d : wf_state (empty_state d).
+Proof. constructor. Qed.
+
+Lemma run_wf c hist (st : state) : wf_state st -> wf_state (run mk c hist st).
+Proof.
+  intros WS. apply (run_inv c (fun _ => True) (fun _ => True)); auto.
+  apply Forall_forall; auto.
+Qed.
+
+(* ------------------------------------------------------------------ the current code: nothing pre-existing is written *)
+Lemma exec_new_writes_fresh x (st st' : state) W res :
+  wf_state st -> exec mk cfg_new x st = (st', W, res) -> Forall (fun l => hnext (hp st) <= l) W.
+Proof.
+  intros WS E. unfold exec in E. destruct (run_micro_frame _ _ _ _ _ _ WS E) as (_ & _ & _ & F & _).
+  eapply Forall_impl; [|exact F]. cbn. intros l [X|X]; [exact X|discriminate].
+Qed.
+
+Lemma exec_new_heap x (st st' : state) W res :
+  wf_state st -> exec mk cfg_new x st = (st', W, res) ->
+  forall l, l < hnext (hp st) -> hval (hp st') l = hval (hp st) l.
+Proof.
+  intros WS E l Hl. destruct (exec_frame _ _ _ _ _ _ WS E) as ([_ A] & _).
+  apply A; auto. intros HI. pose proof (exec_new_writes_fresh _ _ _ _ _ WS E) as F.
+  rewrite Forall_forall in F. specialize (F _ HI). lia.
+Qed.
+
+Definition micro_changes (k : micro) : option nat :=
+  match k with KMut i _ | KRebind i _ => Some i | _ => None end.
+
+Lemma obs_at_same (st st' : state) j :
+  wf_state st -> nth_error (objs st') j = nth_error (objs st) j ->
+  (forall o l, nth_error (objs st) j = Some o -> In l (reach o) -> hval (hp st') l = hval (hp st) l) ->
+  obs_at st' j = obs_at st j.
+Proof.
+  intros WS N H. unfold obs_at. rewrite N. destruct (nth_error (objs st) j) as [o|] eqn:E; cbn; [|reflexivity].
+  f_equal. apply obs_ext. intros l Hl. eapply H; eauto.
+Qed.
+
+Lemma micro_obs_new k (st st' : state) W res j :
+  wf_state st -> exec_micro mk cfg_new k st = (st', W, res) -> j < length (objs st) ->
+  micro_changes k <> Some j -> obs_at st' j = obs_at st j.
+Proof.
+  intros WS E LJ NC.
+  destruct (micro_ok _ _ _ _ _ _ WS E) as ([_ A] & _ & _ & OTH & SUB & F & _).
+  assert (HEAP : forall l, l < hnext (hp st) -> hval (hp st') l = hval (hp st) l).
+  { intros l Hl. apply A; auto. intros HI. rewrite Forall_forall in F. destruct (F _ HI) as [X|[X _]]; [lia|discriminate]. }
+  destruct (nth_error (objs st) j) as [o|] eqn:NJ; [|apply nth_error_None in NJ; lia].
+  assert (CASE : micro_subject k = Some j \/ micro_subject k <> Some j).
+  { destruct (micro_subject k) as [i|]; [destruct (Nat.eq_dec i j); [left; congruence|right; congruence]|right; discriminate]. }
+  destruct CASE as [SJ|SJ].
+  - destruct k as [i g|i p|d|i kk|i|i]; cbn in SJ, NC; try congruence.
+    inversion SJ; subst i.
+    destruct (SUB j o eq_refl NJ) as (o' & N' & _ & OB). destruct (OB g eq_refl) as [OB1 _].
+    unfold obs_at. rewrite N', NJ. cbn. f_equal. exact OB1.
+  - apply obs_at_same; [exact WS|apply OTH; auto|].
+    intros o0 l N0 Hl. apply HEAP. pose proof (wf_obj_reach _ _ (wf_state_nth _ _ _ WS N0)) as R.
+    rewrite Forall_forall in R. auto.
+Qed.
+
+(* ------------------------------------------------------------------ compile: which objects a call can change *)
+Ltac micro_forall tac :=
+  repeat first
+    [ apply Forall_nil
+    | apply Forall_cons; [tac|]
+    | apply Forall_app; split
+    | (apply Forall_forall; let k := fresh "k" in let HH := fresh "HH" in
+       intros k HH; unfold fills in HH; apply in_map_iff in HH; destruct HH as (? & <- & ?); tac) ].
+
+Lemma compile_changes c (st : state) x j :
+  j < length (objs st) -> cmd_subject x <> Some j ->
+  Forall (fun k => micro_changes k <> Some j) (compile c st x).
+Proof.
+  intros LJ NS.
+  destruct x as [mode n stamped|k|i g|i rm prop sim3|i|i plane|i ids|i ids|i ref cs only|i ref|src|a b ia ib|srcs
+                |k src cuts|src sm|src|r]; cbn in NS |- *;
+  try (micro_forall ltac:(cbn; congruence)).
+  - destruct only, cs; micro_forall ltac:(cbn; congruence).
+  - micro_forall ltac:(cbn; first [congruence | intros X; inversion X; lia]).
+  - destruct (c_split_self c), (traj_n st src <=? 1), k, cuts; micro_forall ltac:(cbn; congruence).
+  - destruct r as [pb m ref est|pb fr m ref est|m|m|x0 y0|s1 s2|p|rs kk|t|t|r0|t|t|t|r0|ts|t|t|e|t chk];
+      cbn in NS |- *;
+      try destruct pb; try destruct fr; try destruct chk;
+      try (destruct rs as [|r0 [|r1 rs]]);
+      micro_forall ltac:(cbn; congruence).
+Qed.
+
+(* the view of an object is untouched by any call of the current code that does not operate on it *)
+Lemma exec_obs_new x (st st' : state) W res j :
+  wf_state st -> exec mk cfg_new x st = (st', W, res) -> j < length (objs st) ->
+  cmd_subject x <> Some j -> obs_at st' j = obs_at st j /\ j < length (objs st').
+Proof.
+  intros WS E LJ NS. unfold exec in E.
+  pose proof (compile_changes cfg_new st x j LJ NS) as FQ.
+  apply (run_micro_inv cfg_new (fun k => micro_changes k <> Some j)
+           (fun s => obs_at s j = obs_at st j /\ j < length (objs s))) with (ks := compile cfg_new st x) (st := st) (W := W) (res := res);
+    auto.
+  intros k s s' W0 r0 QK [PO PL] WSs Es.
+  destruct (micro_ok _ _ _ _ _ _ WSs Es) as (_ & _ & LL & _).
+  split; [|lia]. rewrite <- PO. eapply micro_obs_new; eauto.
+Qed.
+
+Theorem independent_new : forall hist (st : state) a,
+  wf_state st -> a < length (objs st) -> Forall (fun x => cmd_subject x <> Some a) hist ->
+  obs_at (run mk cfg_new hist st) a = obs_at st a.
+Proof.
+  intros hist st a WS LA FQ.
+  destruct (run_inv cfg_new (fun x => cmd_subject x <> Some a)
+              (fun s => obs_at s a = obs_at st a /\ a < length (objs s))) with (hist := hist) (st := st) as [[R _] _]; auto.
+  intros x s s' W res QX [PO PL] WSs Es.
+  destruct (exec_obs_new _ _ _ _ _ _ WSs Es PL QX) as [A B]. split; [congruence|exact B].
+Qed.
+
+(* ------------------------------------------------------------------ readers and derivations (any configuration) *)
+Definition micro_quiet (m : nat) (s : option nat) (k : micro) : Prop :=
+  match k with
+  | KFill _ _ | KNew _ | KAlias _ | KScratch _ => True
+  | KMut i p => m <= i /\ exists ids, p = PReduce ids
+  | KRebind i _ => s = Some i
+  end.
+
+(* object j of st0 is still there in st: same cached arrays (possibly more caches), same view *)
+Definition kept (st0 st : state) (j : nat) : Prop :=
+  exists o o', nth_error (objs st0) j = Some o /\ nth_error (objs st) j = Some o' /\
+               cache_le_obj o o' /\ obs mk (hp st) o' = obs mk (hp st0) o.
+
+Lemma cache_le_trans t1 t2 t3 : cache_le t1 t2 -> cache_le t2 t3 -> cache_le t1 t3.
+Proof.
+  unfold cache_le. intros (A1 & A2 & A3 & A4 & A5 & A6 & A7) (B1 & B2 & B3 & B4 & B5 & B6 & B7).
+  repeat split; try congruence; auto.
+Qed.
+
+Lemma cache_le_obj_refl o : cache_le_obj o o.
+Proof. destruct o; cbn; [apply cache_le_refl|reflexivity]. Qed.
+
+Lemma cache_le_obj_trans o1 o2 o3 : cache_le_obj o1 o2 -> cache_le_obj o2 o3 -> cache_le_obj o1 o3.
+Proof.
+  destruct o1, o2, o3; cbn; try contradiction; try congruence. apply cache_le_trans.
+Qed.
+
+Lemma kept_refl (st : state) j : j < length (objs st) -> kept st st j.
+Proof.
+  intros L. destruct (nth_error (objs st) j) as [o|] eqn:E; [|apply nth_error_None in E; lia].
+  exists o, o. repeat split; auto. apply cache_le_obj_refl.
+Qed.
+
+Lemma kept_trans (s1 s2 s3 : state) j : kept s1 s2 j -> kept s2 s3 j -> kept s1 s3 j.
+Proof.
+  intros (o1 & o2 & A1 & A2 & A3 & A4) (o2' & o3 & B1 & B2 & B3 & B4).
+  rewrite A2 in B1; inversion B1; subst o2'.
+  exists o1, o3. repeat split; auto; [eapply cache_le_obj_trans; eauto|congruence].
+Qed.
+
+Lemma kept_obs_at (s1 s2 : state) j : kept s1 s2 j -> obs_at s2 j = obs_at s1 j.
+Proof. intros (o & o' & A & B & _ & D). unfold obs_at. rewrite A, B. cbn. congruence. Qed.
+
+Lemma reduce_writes_nothing c ids (h : heap) t h' t' W : mutate mk c (PReduce ids) h t = (h', t', W) -> W = [].
+Proof.
+  unfold mutate. destruct (derive_opt mk tg_sel h (t_pos t)) as [h1 p1].
+  destruct (derive_opt mk tg_sel h1 (t_quat t)) as [h2 q1].
+  destruct (t_poses t) as [[lid ps]|].
+  - destruct (alloc h2 _) as [h3 l3]. destruct (derive_opt mk tg_sel h3 (t_stamps t)) as [h4 s1].
+    intros X; inversion X; reflexivity.
+  - destruct (derive_opt mk tg_sel h2 (t_stamps t)) as [h4 s1]. intros X; inversion X; reflexivity.
+Qed.
+
+Lemma micro_quiet_step c m s k (st st' : state) W res :
+  wf_state st -> micro_quiet m s k -> m <= length (objs st) -> exec_micro mk c k st = (st', W, res) ->
+  (forall l, l < hnext (hp st) -> hval (hp st') l = hval (hp st) l) /\
+  forall j, j < m -> s <> Some j -> kept st st' j.
+Proof.
+  intros WS Q LM E.
+  destruct (micro_ok _ _ _ _ _ _ WS E) as ([_ A] & _ & _ & OTH & SUB & F & _).
+  assert (HEAP : forall l, l < hnext (hp st) -> hval (hp st') l = hval (hp st) l).
+  { intros l Hl. apply A; auto. intros HI. rewrite Forall_forall in F. destruct (F _ HI) as [X|[_ (i & p & o & X & _)]]; [lia|].
+    subst k. cbn in Q. destruct Q as [_ [ids ->]].
+    unfold exec_micro in E. destruct (get_traj st i) as [t|]; [|inversion E; subst; contradiction].
+    destruct (mutate mk c (PReduce ids) (hp st) t) as [[h1 t1] W1] eqn:EM. inversion E; subst.
+    apply reduce_writes_nothing in EM. subst. contradiction. }
+  split; [exact HEAP|]. intros j LJ SJ.
+  destruct (nth_error (objs st) j) as [o|] eqn:NJ; [|apply nth_error_None in NJ; lia].
+  assert (CASE : micro_subject k = Some j \/ micro_subject k <> Some j).
+  { destruct (micro_subject k) as [i|]; [destruct (Nat.eq_dec i j); [left; congruence|right; congruence]|right; discriminate]. }
+  destruct CASE as [SUBJ|SUBJ].
+  - destruct k as [i g|i p|d|i kk|i|i]; cbn in SUBJ, Q; try congruence.
+    + inversion SUBJ; subst i. destruct (SUB j o eq_refl NJ) as (o' & N' & _ & OB). destruct (OB g eq_refl) as [OB1 OB2].
+      exists o, o'. auto.
+    + inversion SUBJ; subst i. lia.
+  - exists o, o. split; [exact NJ|split; [rewrite OTH by (auto; lia); exact NJ|split; [apply cache_le_obj_refl|]]].
+    apply obs_ext. intros l Hl. apply HEAP. pose proof (wf_obj_reach _ _ (wf_state_nth _ _ _ WS NJ)) as R.
+    rewrite Forall_forall in R. auto.
+Qed.
+
+Lemma run_micro_quiet c m s ks : forall (st st' : state) W res,
+  wf_state st -> Forall (micro_quiet m s) ks -> m <= length (objs st) -> run_micro mk c ks st = (st', W, res) ->
+  (forall l, l < hnext (hp st) -> hval (hp st') l = hval (hp st) l) /\
+  forall j, j < m -> s <> Some j -> kept st st' j.
+Proof.
+  induction ks as [|k r IH]; intros st st' W res WS FQ LM E.
+  - cbn in E. inversion E; subst. split; [auto|]. intros j LJ _. apply kept_refl. lia.
+  - rewrite run_micro_cons in E.
+    destruct (exec_micro mk c k st) as [[st1 W1] r1] eqn:E1.
+    destruct (run_micro mk c r st1) as [[st2 W2] r2] eqn:E2. inversion E; subst; clear E.
+    inversion FQ as [|? ? QK QR]; subst.
+    destruct (micro_ok _ _ _ _ _ _ WS E1) as ([L1 _] & B1 & C1 & _).
+    destruct (micro_quiet_step _ _ _ _ _ _ _ _ WS QK LM E1) as [H1 K1].
+    assert (LM1 : m <= length (objs st1)) by lia.
+    destruct (IH _ _ _ _ B1 QR LM1 E2) as [H2 K2].
+    split.
+    + intros l Hl. rewrite H2 by lia. apply H1; exact Hl.
+    + intros j LJ SJ. eapply kept_trans; [apply K1|apply K2]; auto.
+Qed.
+
+Definition is_deriv (x : cmd) : bool :=
+  match x with
+  | CInit _ _ _ | CInitBag _ | CGet _ _ | CCopy _ | CAssoc _ _ _ _ | CMerge _ | CSplit _ _ _
+  | CCtorPoses _ _ | CCtorPQ _ => true
+  | _ => false
+  end.
+
+Lemma compile_quiet c (st : state) x :
+  (is_deriv x = true \/ exists r, x = CRead r) ->
+  Forall (micro_quiet (length (objs st)) (cmd_subject x)) (compile c st x).
+Proof.
+  intros D.
+  destruct x as [mode n stamped|k|i g|i rm prop sim3|i|i plane|i ids|i ids|i ref cs only|i ref|src|a b ia ib|srcs
+                |k src cuts|src sm|src|r]; cbn in D |- *;
+  try (destruct D as [D|[r0 D]]; discriminate);
+  try (micro_forall ltac:(cbn; auto)).
+  - split; [lia|eexists; reflexivity].
+  - split; [lia|eexists; reflexivity].
+  - destruct (c_split_self c), (traj_n st src <=? 1), k, cuts; micro_forall ltac:(cbn; auto).
+  - destruct r as [pb m ref est|pb fr m ref est|m|m|x0 y0|s1 s2|p|rs kk|t|t|r0|t|t|t|r0|ts|t|t|e|t chk];
+      cbn;
+      try destruct pb; try destruct fr; try destruct chk;
+      try (destruct rs as [|r0 [|r1 rs]]);
+      micro_forall ltac:(cbn; auto).
+Qed.
+
+(* metrics, statistics, alignment targets, associations, pair selections, merges, DataFrame conversion, plots and
+   file writers, and every derivation: no pre-existing cell is written and every existing object other than the
+   one explicitly operated on keeps its cached arrays and its view *)
+Theorem quiet_calls_pure : forall c x (st st' : state) W res,
+  wf_state st -> (is_deriv x = true \/ exists r, x = CRead r) -> exec mk c x st = (st', W, res) ->
+  (forall l, l < hnext (hp st) -> hval (hp st') l = hval (hp st) l) /\
+  forall j, j < length (objs st) -> cmd_subject x <> Some j -> kept st st' j /\ obs_at st' j = obs_at st j.
+Proof.
+  intros c x st st' W res WS D E. unfold exec in E.
+  destruct (run_micro_quiet c _ _ _ _ _ _ _ WS (compile_quiet c st x D) (le_n _) E) as [A B].
+  split; [exact A|]. intros j LJ SJ. split; [auto|apply kept_obs_at; auto].
+Qed.
+
+(* ------------------------------------------------------------------ separation: disjoint footprints *)
+Definition sep (st : state) (a b : nat) : Prop :=
+  forall oa ob l, nth_error (objs st) a = Some oa -> nth_error (objs st) b = Some ob ->
+                  In l (reach oa) -> In l (reach ob) -> False.
+
+Lemma sep_sym (st : state) a b : sep st a b -> sep st b a.
+Proof. unfold sep. intros H oa ob l A B C D. eapply H; eauto. Qed.
+
+Lemma subject_cases k j : micro_subject k = Some j \/ micro_subject k <> Some j.
+Proof.
+  destruct (micro_subject k) as [i|]; [destruct (Nat.eq_dec i j); [left; congruence|right; congruence]|right; discriminate].
+Qed.
+
+(* every step keeps two separated objects separated: the touched object only gains fresh cells *)
+Lemma micro_sep_pres c k (st st' : state) W res a b :
+  wf_state st -> a <> b -> a < length (objs st) -> b < length (objs st) -> sep st a b ->
+  exec_micro mk c k st = (st', W, res) -> sep st' a b.
+Proof.
+  intros WS NE LA LB SP E.
+  destruct (micro_ok _ _ _ _ _ _ WS E) as (_ & _ & _ & OTH & SUB & _).
+  destruct (nth_error (objs st) a) as [oa|] eqn:NA; [|apply nth_error_None in NA; lia].
+  destruct (nth_error (objs st) b) as [ob|] eqn:NB; [|apply nth_error_None in NB; lia].
+  pose proof (wf_obj_reach _ _ (wf_state_nth _ _ _ WS NA)) as RA. rewrite Forall_forall in RA.
+  pose proof (wf_obj_reach _ _ (wf_state_nth _ _ _ WS NB)) as RB. rewrite Forall_forall in RB.
+  intros oa' ob' l NA' NB' HA HB.
+  destruct (subject_cases k a) as [SA|SA]; destruct (subject_cases k b) as [SB|SB].
+  - congruence.
+  - rewrite OTH in NB' by auto. rewrite NB in NB'; inversion NB'; subst ob'.
+    destruct (SUB a oa SA NA) as (o' & N' & R' & _). rewrite NA' in N'; inversion N'; subst o'.
+    rewrite Forall_forall in R'. destruct (R' _ HA) as [X|X].
+    + eapply SP; eauto.
+    + specialize (RB _ HB). lia.
+  - rewrite OTH in NA' by auto. rewrite NA in NA'; inversion NA'; subst oa'.
+    destruct (SUB b ob SB NB) as (o' & N' & R' & _). rewrite NB' in N'; inversion N'; subst o'.
+    rewrite Forall_forall in R'. destruct (R' _ HB) as [X|X].
+    + eapply SP; eauto.
+    + specialize (RA _ HA). lia.
+  - rewrite OTH in NA' by auto. rewrite OTH in NB' by auto.
+    rewrite NA in NA'; inversion NA'; subst. rewrite NB in NB'; inversion NB'; subst. eapply SP; eauto.
+Qed.
+
+Definition micro_on (b : nat) (k : micro) : Prop :=
+  match k with KFill _ _ => True | KMut i _ => i = b | _ => False end.
+
+(* operating on b - even writing b's cells in place - cannot be seen through a separated object a *)
+Lemma micro_on_obs c k (st st' : state) W res a b :
+  wf_state st -> a <> b -> a < length (objs st) -> b < length (objs st) -> sep st a b -> micro_on b k ->
+  exec_micro mk c k st = (st', W, res) -> obs_at st' a = obs_at st a.
+Proof.
+  intros WS NE LA LB SP ON E.
+  destruct (micro_ok _ _ _ _ _ _ WS E) as ([_ A] & _ & _ & OTH & SUB & F & _).
+  destruct (nth_error (objs st) a) as [oa|] eqn:NA; [|apply nth_error_None in NA; lia].
+  pose proof (wf_obj_reach _ _ (wf_state_nth _ _ _ WS NA)) as RA. rewrite Forall_forall in RA.
+  assert (HEAP : forall l, In l (reach oa) -> hval (hp st') l = hval (hp st) l).
+  { intros l Hl. apply A; [auto|]. intros HI. rewrite Forall_forall in F.
+    destruct (F _ HI) as [X|[_ (i & p & o & X & NO & HO)]]; [specialize (RA _ Hl); lia|].
+    subst k. cbn in ON. subst i. eapply SP; eauto. }
+  destruct (subject_cases k a) as [SA|SA].
+  - destruct k as [i g|i p|d|i kk|i|i]; cbn in SA, ON; try congruence; try contradiction.
+    inversion SA; subst i.
+    destruct (SUB a oa eq_refl NA) as (o' & N' & _ & OB). destruct (OB g eq_refl) as [OB1 _].
+    unfold obs_at. rewrite N', NA. cbn. f_equal. exact OB1.
+  - apply obs_at_same; [exact WS|apply OTH; auto|]. intros o0 l N0 Hl. rewrite NA in N0; inversion N0; subst. auto.
+Qed.
+
+Lemma compile_only_on c (st : state) b x : only_on b x = true -> Forall (micro_on b) (compile c st x).
+Proof.
+  intros O.
+  destruct x as [mode n stamped|k|i g|i rm prop sim3|i|i plane|i ids|i ids|i ref cs only|i ref|src|a0 b0 ia ib|srcs
+                |k src cuts|src sm|src|r]; cbn in O |- *; try discriminate;
+  try (apply Nat.eqb_eq in O; subst i); try destruct only; try destruct cs;
+  micro_forall ltac:(cbn; auto).
+Qed.
+
+Theorem separated_independent : forall c hist (st : state) a b,
+  wf_state st -> a <> b -> a < length (objs st) -> b < length (objs st) -> sep st a b ->
+  Forall (fun x => only_on b x = true) hist ->
+  obs_at (run mk c hist st) a = obs_at st a.
+Proof.
+  intros c hist st a b WS NE LA LB SP FQ.
+  pose (P := fun s : state => a < length (objs s) /\ b < length (objs s) /\ sep s a b /\ obs_at s a = obs_at st a).
+  destruct (run_inv c (fun x => only_on b x = true) P) with (hist := hist) (st := st) as [(_ & _ & _ & R) _]; auto.
+  - intros x s s' W res QX PS WSs Es. unfold exec in Es.
+    apply (run_micro_inv c (micro_on b) P) with (ks := compile c s x) (st := s) (W := W) (res := res); auto.
+    + intros k s0 s1 W0 r0 QK (PA & PB & PS0 & PO) WS0 E0.
+      destruct (micro_ok _ _ _ _ _ _ WS0 E0) as (_ & _ & LL & _).
+      split; [lia|split; [lia|split]].
+      * eapply micro_sep_pres; eauto.
+      * rewrite <- PO. eapply micro_on_obs; eauto.
+    + apply compile_only_on; exact QX.
+  - unfold P; auto.
+Qed.
+
+(* objects created from fresh cells only are separated from everything that existed before *)
+Definition allsep_from (m : nat) (st : state) : Prop :=
+  forall a b, a <> b -> (m <= a \/ m <= b) -> a < length (objs st) -> b < length (objs st) -> sep st a b.
+
+Definition micro_fresh (m : nat) (k : micro) : Prop :=
+  match k with KFill _ _ => True | KNew d => fresh_kind d = true | KMut i _ => m <= i | _ => False end.
+
+Lemma micro_fresh_step c m k (st st' : state) W res :
+  wf_state st -> m <= length (objs st) -> allsep_from m st -> micro_fresh m k ->
+  exec_micro mk c k st = (st', W, res) -> allsep_from m st'.
+Proof.
+  intros WS LM AS MF E.
+  pose proof (micro_ok _ _ _ _ _ _ WS E) as (_ & _ & LL & OTH & _ & _ & NEW & _).
+  intros a b NE GE LA LB.
+  destruct (Nat.lt_ge_cases a (length (objs st))) as [OA|NA]; destruct (Nat.lt_ge_cases b (length (objs st))) as [OB|NB].
+  - eapply micro_sep_pres; eauto.
+  - (* b is new, a is old *)
+    intros oa ob l HA HB IA IB.
+    destruct (NEW b ob NB HB) as (d & -> & FR). cbn in MF. destruct (FR MF) as [FB _].
+    rewrite OTH in HA by (auto; cbn; discriminate).
+    pose proof (wf_obj_reach _ _ (wf_state_nth _ _ _ WS HA)) as RA. rewrite Forall_forall in RA, FB.
+    specialize (RA _ IA). specialize (FB _ IB). lia.
+  - intros oa ob l HA HB IA IB.
+    destruct (NEW a oa NA HA) as (d & -> & FR). cbn in MF. destruct (FR MF) as [FA _].
+    rewrite OTH in HB by (auto; cbn; discriminate).
+    pose proof (wf_obj_reach _ _ (wf_state_nth _ _ _ WS HB)) as RB. rewrite Forall_forall in RB, FA.
+    specialize (RB _ IB). specialize (FA _ IA). lia.
+  - (* both new: a fresh creation adds one object *)
+    destruct (nth_error (objs st') a) as [oa|] eqn:HA; [|apply nth_error_None in HA; lia].
+    destruct (NEW a oa NA HA) as (d & -> & FR). cbn in MF. destruct (FR MF) as [_ L1]. lia.
+Qed.
+
+Lemma run_micro_fresh c m ks : forall (st st' : state) W res,
+  wf_state st -> m <= length (objs st) -> allsep_from m st -> Forall (micro_fresh m) ks ->
+  run_micro mk c ks st = (st', W, res) -> allsep_from m st'.
+Proof.
+  intros st st' W res WS LM AS FQ E.
+  apply (run_micro_inv c (micro_fresh m) (fun s => m <= length (objs s) /\ allsep_from m s))
+    with (ks := ks) (st := st) (W := W) (res := res); auto.
+  intros k s s' W0 r0 QK [PL PA] WSs Es.
+  destruct (micro_ok _ _ _ _ _ _ WSs Es) as (_ & _ & LL & _).
+  split; [lia|eapply micro_fresh_step; eauto].
+Qed.
+
+Definition fresh_deriv (x : cmd) : bool :=
+  match x with
+  | CInit _ _ _ | CInitBag _ | CCopy _ | CAssoc _ _ _ _ | CMerge _ | CCtorPQ _ => true
+  | _ => false
+  end.
+
+Lemma compile_fresh c (st : state) x :
+  fresh_deriv x = true -> Forall (micro_fresh (length (objs st))) (compile c st x) /\ Forall no_alias (compile c st x).
+Proof.
+  intros D.
+  destruct x as [mode n stamped|k|i g|i rm prop sim3|i|i plane|i ids|i ids|i ref cs only|i ref|src|a b ia ib|srcs
+                |k src cuts|src sm|src|r]; cbn in D |- *; try discriminate;
+  (split; [micro_forall ltac:(cbn; first [exact I|reflexivity|lia])|micro_forall ltac:(intros ?; discriminate)]).
+Qed.
+
+(* ------------------------------------------------------------------ derived objects *)
+Definition derivation (x : cmd) : bool :=
+  match x with
+  | CCopy _ | CAssoc _ _ _ _ | CMerge _ | CSplit _ _ _ | CCtorPoses _ _ | CCtorPQ _ => true
+  | _ => false
+  end.
+
+Lemma compile_new_no_alias (st : state) x : derivation x = true -> Forall no_alias (compile cfg_new st x).
+Proof.
+  intros D.
+  destruct x as [mode n stamped|k|i g|i rm prop sim3|i|i plane|i ids|i ids|i ref cs only|i ref|src|a b ia ib|srcs
+                |k src cuts|src sm|src|r]; cbn in D |- *; try discriminate;
+  try (micro_forall ltac:(intros ?; discriminate)).
+  destruct (traj_n st src <=? 1), k, cuts; micro_forall ltac:(intros ?; discriminate).
+Qed.
+
+Lemma derivation_subject x : derivation x = true -> cmd_subject x = None.
+Proof. destruct x; cbn; try discriminate; auto. Qed.
+
+Lemma only_on_subject a b y : only_on b y = true -> a <> b -> cmd_subject y <> Some a.
+Proof.
+  destruct y; cbn; try discriminate; intros O NE; try (apply Nat.eqb_eq in O; subst); congruence.
+Qed.
+
+Lemma only_on_subjects a b hist :
+  a <> b -> Forall (fun y => only_on b y = true) hist -> Forall (fun y => cmd_subject y <> Some a) hist.
+Proof. intros NE F. eapply Forall_impl; [|exact F]. cbn. intros y O. eapply only_on_subject; eauto. Qed.
+
+(* copies, associated trajectories, merged trajectories, split parts (and constructor results) under the current
+   code: the derived object b is a different object, deriving it did not change the source a, and no history of
+   operations on the one - of any length - changes what is seen through the other *)
+Theorem derived_independent_new : forall x (st st1 : state) W res,
+  wf_state st -> derivation x = true -> exec mk cfg_new x st = (st1, W, res) ->
+  forall a b, a < length (objs st) -> In b res ->
+    a <> b /\ b < length (objs st1) /\ obs_at st1 a = obs_at st a /\
+    (forall hist, Forall (fun y => only_on b y = true) hist -> obs_at (run mk cfg_new hist st1) a = obs_at st a) /\
+    (forall hist, Forall (fun y => only_on a y = true) hist -> obs_at (run mk cfg_new hist st1) b = obs_at st1 b).
+Proof.
+  intros x st st1 W res WS D E a b LA HB.
+  assert (RB : length (objs st) <= b < length (objs st1)).
+  { unfold exec in E. destruct (run_micro_frame _ _ _ _ _ _ WS E) as (_ & _ & _ & _ & R).
+    apply R; [apply compile_new_no_alias; exact D|exact HB]. }
+  destruct (exec_frame _ _ _ _ _ _ WS E) as (_ & WS1 & LL).
+  assert (NS : cmd_subject x <> Some a) by (rewrite derivation_subject by exact D; discriminate).
+  destruct (exec_obs_new _ _ _ _ _ _ WS E LA NS) as [OA LA1].
+  assert (NE : a <> b) by lia.
+  split; [exact NE|split; [lia|split; [exact OA|split]]].
+  - intros hist F. rewrite <- OA. apply independent_new; [exact WS1|exact LA1|].
+    eapply only_on_subjects; eauto.
+  - intros hist F. apply independent_new; [exact WS1|lia|]. eapply only_on_subjects; [|exact F]. congruence.
+Qed.
+
+(* copies, associated and merged trajectories: built from fresh cells only, hence independent even when an
+   operation writes the cells of its object in place (old project()) *)
+Theorem fresh_derived_independent : forall c x (st st1 : state) W res,
+  wf_state st -> fresh_deriv x = true -> exec mk c x st = (st1, W, res) ->
+  forall a b, a < length (objs st) -> In b res ->
+    a <> b /\ b < length (objs st1) /\ sep st1 a b /\ obs_at st1 a = obs_at st a /\
+    (forall hist, Forall (fun y => only_on b y = true) hist -> obs_at (run mk c hist st1) a = obs_at st a) /\
+    (forall hist, Forall (fun y => only_on a y = true) hist -> obs_at (run mk c hist st1) b = obs_at st1 b).
+Proof.
+  intros c x st st1 W res WS D E a b LA HB.
+  destruct (compile_fresh c st x D) as [CF CN].
+  assert (RB : length (objs st) <= b < length (objs st1)).
+  { unfold exec in E. destruct (run_micro_frame _ _ _ _ _ _ WS E) as (_ & _ & _ & _ & R). apply R; auto. }
+  destruct (exec_frame _ _ _ _ _ _ WS E) as (_ & WS1 & LL).
+  assert (AS : allsep_from (length (objs st)) st1).
+  { unfold exec in E. eapply run_micro_fresh; [exact WS|apply le_n| |exact CF|exact E].
+    intros a0 b0 _ GE L1 L2. lia. }
+  assert (NE : a <> b) by lia.
+  assert (SP : sep st1 a b) by (apply AS; auto; lia).
+  assert (ID : is_deriv x = true \/ exists r, x = CRead r) by (left; destruct x; cbn in D |- *; auto; discriminate).
+  assert (NS : cmd_subject x <> Some a) by (destruct x; cbn in D |- *; try discriminate).
+  destruct (quiet_calls_pure c x _ _ _ _ WS ID E) as [_ K]. destruct (K a LA NS) as [_ OA].
+  split; [exact NE|split; [lia|split; [exact SP|split; [exact OA|split]]]].
+  - intros hist F. rewrite <- OA. eapply separated_independent; eauto; lia.
+  - intros hist F. eapply separated_independent; [exact WS1| | | |apply sep_sym; exact SP|exact F]; auto; lia.
+Qed.
+
+Theorem readers_pure : forall c r (st st' : state) W res,
+  wf_state st -> exec mk c (CRead r) st = (st', W, res) ->
+  (forall l, l < hnext (hp st) -> hval (hp st') l = hval (hp st) l) /\
+  forall j, j < length (objs st) -> cmd_subject (CRead r) <> Some j -> kept st st' j /\ obs_at st' j = obs_at st j.
+Proof. intros c r st st' W res WS E. eapply quiet_calls_pure; eauto. Qed.
+
+Theorem derivations_pure : forall c x (st st' : state) W res,
+  wf_state st -> is_deriv x = true -> exec mk c x st = (st', W, res) ->
+  (forall l, l < hnext (hp st) -> hval (hp st') l = hval (hp st) l) /\
+  forall j, j < length (objs st) -> kept st st' j /\ obs_at st' j = obs_at st j.
+Proof.
+  intros c x st st' W res WS D E. destruct (quiet_calls_pure c x _ _ _ _ WS (or_introl D) E) as [A B].
+  split; [exact A|]. intros j LJ. apply B; auto. destruct x; cbn in D |- *; discriminate.
+Qed.
+
+Theorem new_code_writes_no_preexisting_cell : forall x (st st' : state) W res,
+  wf_state st -> exec mk cfg_new x st = (st', W, res) ->
+  Forall (fun l => hnext (hp st) <= l) W /\
+  forall l, l < hnext (hp st) -> hval (hp st') l = hval (hp st) l.
+Proof. intros. split; [eapply exec_new_writes_fresh; eauto|eapply exec_new_heap; eauto]. Qed.
+
+Theorem reachable_wf : forall c hist (d : V), wf_state (run mk c hist (empty_state d)).
+Proof. intros. apply run_wf, empty_wf. Qed.
+
 End Proofs.
+
+(* ------------------------------------------------------------------ witnesses: old behaviour, non-vacuity *)
+Definition mk1 (tag idx : nat) (args : list nat) : nat := S (tag + idx + list_sum args).
+
+Lemma exec_eta {V : Type} (e : state V * list loc * list nat) : e = (fst (fst e), snd (fst e), snd e).
+Proof. destruct e as [[? ?] ?]; reflexivity. Qed.
+
+Definition w_st : state nat := run mk1 cfg_old [CInit 0 3 true; CGet 0 GPos] (empty_state 0).
+
+(* old code: a split part holds the parent's pose matrices and project() wrote them in place *)
+Theorem old_split_parts_independent_refuted :
+  exists (st : state nat) k src cuts st1 W res b hist,
+    wf_state st /\ src < length (objs st) /\ exec mk1 cfg_old (CSplit k src cuts) st = (st1, W, res) /\
+    In b res /\ b <> src /\ Forall (fun y => only_on b y = true) hist /\
+    obs_at mk1 (run mk1 cfg_old hist st1) src <> obs_at mk1 st1 src.
+Proof.
+  pose (e := exec mk1 cfg_old (CSplit SplitTime 0 [1]) w_st).
+  exists w_st, SplitTime, 0, [1], (fst (fst e)), (snd (fst e)), (snd e), 1, [CProject 1 0].
+  split; [apply run_wf, empty_wf|]. split; [vm_compute; lia|]. split; [apply exec_eta|].
+  split; [vm_compute; auto|]. split; [discriminate|]. split; [repeat constructor|].
+  vm_compute. intros H; discriminate H.
+Qed.
+
+(* the same history on the current code leaves the parent alone although the cells are still shared *)
+Theorem new_split_part_shares_cells_but_is_independent :
+  let st := run mk1 cfg_new [CInit 0 3 true; CGet 0 GPos] (empty_state 0) in
+  let st1 := fst (fst (exec mk1 cfg_new (CSplit SplitTime 0 [1]) st)) in
+  let st2 := run mk1 cfg_new [CProject 1 0] st1 in
+  (exists l oa ob, nth_error (objs st1) 0 = Some oa /\ nth_error (objs st1) 1 = Some ob /\ In l (reach oa) /\ In l (reach ob)) /\
+  obs_at mk1 st2 0 = obs_at mk1 st1 0 /\ obs_at mk1 st2 1 <> obs_at mk1 st1 1.
+Proof.
+  cbv zeta. split; [|split].
+  - vm_compute. eexists _, _, _. split; [reflexivity|split; [reflexivity|split; [right; right; left; reflexivity|right; left; reflexivity]]].
+  - vm_compute. reflexivity.
+  - vm_compute. intros H; discriminate H.
+Qed.
+
+(* old code: with nothing to cut the single "part" is the trajectory itself *)
+Theorem old_split_without_cut_refuted :
+  exists (st : state nat) k src st1 W res b hist,
+    wf_state st /\ src < length (objs st) /\ exec mk1 cfg_old (CSplit k src []) st = (st1, W, res) /\
+    In b res /\ Forall (fun y => only_on b y = true) hist /\
+    obs_at mk1 (run mk1 cfg_old hist st1) src <> obs_at mk1 st1 src.
+Proof.
+  pose (e := exec mk1 cfg_old (CSplit SplitTime 0 []) w_st).
+  exists w_st, SplitTime, 0, (fst (fst e)), (snd (fst e)), (snd e), 0, [CScale 0].
+  split; [apply run_wf, empty_wf|]. split; [vm_compute; lia|]. split; [apply exec_eta|].
+  split; [vm_compute; auto|]. split; [repeat constructor|].
+  vm_compute. intros H; discriminate H.
+Qed.
+
+Theorem new_split_without_cut_is_a_copy :
+  let st := w_st in
+  let e := exec mk1 cfg_new (CSplit SplitTime 0 []) st in
+  snd e = [1] /\ obs_at mk1 (run mk1 cfg_new [CScale 1; CProject 1 2] (fst (fst e))) 0 = obs_at mk1 st 0.
+Proof. cbv zeta. split; vm_compute; reflexivity. Qed.
+
+(* old code: an object built with PosePath3D(poses_se3=A.poses_se3) and then projected rewrote A's matrices *)
+Theorem old_constructor_shared_matrices_refuted :
+  exists (st : state nat) src st1 W res b hist,
+    wf_state st /\ src < length (objs st) /\ exec mk1 cfg_old (CCtorPoses src false) st = (st1, W, res) /\
+    In b res /\ b <> src /\ Forall (fun y => only_on b y = true) hist /\
+    obs_at mk1 (run mk1 cfg_old hist st1) src <> obs_at mk1 st1 src.
+Proof.
+  pose (e := exec mk1 cfg_old (CCtorPoses 0 false) w_st).
+  exists w_st, 0, (fst (fst e)), (snd (fst e)), (snd e), 1, [CProject 1 1].
+  split; [apply run_wf, empty_wf|]. split; [vm_compute; lia|]. split; [apply exec_eta|].
+  split; [vm_compute; auto|]. split; [discriminate|]. split; [repeat constructor|].
+  vm_compute. intros H; discriminate H.
+Qed.
+
+(* non-vacuity of the operations: a history that changes the derived object and not the source *)
+Theorem example_history_changes_only_the_copy :
+  let st := run mk1 cfg_new [CInit 1 4 true; CInit 0 4 true; CCopy 0] (empty_state 0) in
+  let st' := run mk1 cfg_new [CTransform 2 true true true; CGet 0 GPoses; CProject 2 0; CReduce 2 [0; 2]; CAlign 2 1 true false] st in
+  obs_at mk1 st' 0 = obs_at mk1 st 0 /\ obs_at mk1 st' 1 = obs_at mk1 st 1 /\ obs_at mk1 st' 2 <> obs_at mk1 st 2.
+Proof. cbv zeta. split; [|split]; vm_compute; [reflexivity|reflexivity|intros H; discriminate H]. Qed.
